@@ -206,12 +206,16 @@ def flushUntil (s : State) (me : Ptr) : State :=
   { s with trace := s.trace ++ (s.queue.take (s.queue.idxOf me + 1)).map Ev.res,
            queue := s.queue.drop (s.queue.idxOf me + 1) }
 
-/-- `await_suspend(me)` with an active queue, up to the point where it returns `out` -/
+/-- what `await_suspend(me)` pushes behind the remaining handles: the awaiting coroutine, unless it is one of them -/
+def awaitExtra (s : State) (o : Obj) (me : Ptr) : List Ptr :=
+  if me ∈ handlesOf s { o with cf := o.cf - 2 } then [] else [me]
+
+/-- `await_suspend(me)` with an active queue, up to the point where it returns `out` (the popped handle):
+pop, push the remaining handles and `me`, `clear_internal()`.  (ghost: `me` was handed to the queue) -/
 def awaitQueue (s : State) (i : Nat) (o : Obj) (me : Ptr) : State :=
   clearInternal
-    (enqueue (setObj s i (some { o with cf := o.cf - 2 }))
-      (handlesOf s { o with cf := o.cf - 2 }
-        ++ (if me ∈ handlesOf s { o with cf := o.cf - 2 } then [] else [me])))
+    (enqueue { setObj s i (some { o with cf := o.cf - 2 }) with given := s.given ++ awaitExtra s o me }
+      (handlesOf s { o with cf := o.cf - 2 } ++ awaitExtra s o me))
     i { o with cf := o.cf - 2 }
 
 /-- `co_await sp` by coroutine `me` -/
@@ -219,11 +223,10 @@ def awaitObj (s : State) (i : Nat) (o : Obj) (me : Ptr) : State :=
   if o.cf / 2 = 0 then s                         -- await_ready(): no suspension
   else if s.active then
     -- symmetric transfer to the popped handle, then the scheduler runs the queue up to `me`
-    flushUntil (resumeAll { awaitQueue s i o me with given := s.given ++ [me] } [popValue s o]) me
+    flushUntil (resumeAll (awaitQueue s i o me) [popValue s o]) me
   else
     -- install_queue_and_call: await_suspend(h).resume(), then flush_queue() by the trailer
-    { flushAll (resumeAll { awaitQueue { s with active := true } i o me with given := s.given ++ [me] } [popValue s o])
-        with active := false }
+    { flushAll (resumeAll (awaitQueue { s with active := true } i o me) [popValue s o]) with active := false }
 
 /-! ### operations -/
 
@@ -273,9 +276,8 @@ def stepMove (s : State) (i j : Nat) (typed : Bool) (value : Nat) (oj : Obj) : S
 `_count_flag` reset.  (The loop reads the source while adding to the target; for two distinct objects this is
 the same as reading the source first, because `add` never writes another object's storage.) -/
 def stepMerge (s : State) (i j : Nat) (oj : Obj) : State :=
-  setObj
-    (if oj.cf % 2 = 1 then freeBlk (addAll s i (handlesOf s oj)) oj.ext else addAll s i (handlesOf s oj))
-    j (some { oj with cf := 0 })
+  -- `delete[] other._ext._handles` if flagged, `other._count_flag = 0`: the same statements as `clear_internal()`
+  clearInternal (addAll s i (handlesOf s oj)) j oj
 
 def setValue (s : State) (i : Nat) (v : Nat) : State :=
   match s.obj i with
